@@ -179,18 +179,20 @@ PROPS = {
         level_note='The handler-program space is finite and stated in coverage.bounded.bound.',
     ),
     'C08': dict(
-        level='other', contracts=['C10', 'C20'], frames=[],
+        level='other', contracts=['C10', 'C20'], frames=['confinement'],
         technique='bounded run-time contract check with forced thread interleavings (token hand-over at every executed statement of the '
                   'package via sys.settrace; all schedules up to a preemption bound) against the served-alone response; proved: the ts_props '
                   'accessors read and write only the thread-local store of their own instance; the process-wide template cache is published atomically',
         explanation='BOUNDED forced interleavings of 2-3 request threads; proved ownership of the thread-local accessors and atomic fill of '
                     'the only process-wide lazily initialised state (error page template cache).',
         level_text='Bounded exploration of schedules on the real code (never counted as proved) plus proved accessor ownership. A full '
-                   'thread-confinement proof over every write site reachable from Ombott.__call__ was designed (DESIGN 3.2) but is not built.',
+                   'thread-confinement frame check over every write site of the request path (frames/confinement.py: 72 functions, each write classified '
+                   'TL / REQ / FRESH / ARG or allow-listed with a justification) is discharged, but it is a name-based, flow-insensitive analysis: it '
+                   'supports the argument and catches shared-state regressions; it is not counted as a proof of the statement.',
         level_note='Preemption bound and request kinds are stated in coverage.bounded.bound; threading.local semantics and CPython atomicity of single container operations assumed.',
     ),
     'C09': dict(
-        level='other', contracts=['C14', 'C03', 'C12', 'wsgi'], frames=[],
+        level='other', contracts=['C14', 'C03', 'C12', 'wsgi'], frames=['confinement'],
         technique='bounded run-time contract check of request histories against a fresh application + weak-reference retention count; '
                   'VC on BaseResponse.__init__ (reset completeness)',
         explanation='BOUNDED histories; reset completeness of the response object proved (BaseResponse.__init__).',
